@@ -73,9 +73,8 @@ class LeastSquaresScipyStrategy(HoloPyObject):
             noise = model._find_noise(unscaled_values, data)
             residuals = model._residuals(unscaled_values, data, noise)
             ln_prior = model._lnprior(unscaled_values) - guess_lnprior
-            zscore_prior = np.sqrt(2 * -ln_prior)
-            np.append(residuals, zscore_prior)
-            return residuals
+            zscore_prior = np.sqrt(2 * max(-ln_prior, 0))
+            return np.append(residuals, zscore_prior)
 
         # The only work here
         fitted_pars, minimizer_info = self.minimize(parameters, residual)
